@@ -16,7 +16,7 @@ import (
 
 // Profile = named generator configuration used by the property checks.
 func Profile(name string, seed int64, tier string) HistOpts {
-	o := HistOpts{Seed: seed, Blocks: 36, TxPerBlk: 5, Malformed: 6, CustomGas: 25, Multisig: 8, AbsentPct: 2, ByzPct: 1, CheckTx: true}
+	o := HistOpts{Seed: seed, Blocks: 36, TxPerBlk: 5, Malformed: 6, CustomGas: 25, Multisig: 8, AbsentPct: 2, ByzPct: 1, CheckTx: true, Script: 35}
 	if tier == "thorough" {
 		o.Blocks = 120
 		o.TxPerBlk = 7
@@ -24,6 +24,11 @@ func Profile(name string, seed int64, tier string) HistOpts {
 	switch name {
 	case "mixed":
 	case "ledger": // dense in value-moving txs, custom gas coins, slashes
+		w := DefaultWeights()
+		for _, t := range []tx.TxType{tx.TypeSellCoin, tx.TypeBuyCoin, tx.TypeSellAllCoin, tx.TypeRedeemCheck, tx.TypeEditCoinOwner} {
+			w[t] = 25
+		}
+		o.Weights = w
 		o.CustomGas = 45
 		o.ByzPct = 4
 		o.AbsentPct = 4
@@ -58,6 +63,7 @@ func Profile(name string, seed int64, tier string) HistOpts {
 		o.CustomGas = 10
 		o.Malformed = 2
 		o.CheckTx = false
+		o.Script = 0
 		o.Warmup = 112 // the grace period of the start height ends after block 120: the generated blocks straddle its end
 	case "prune": // more than 100 candidates: the weakest are removed at the first recalculation while moves towards them are in flight
 		w := DefaultWeights()
@@ -66,6 +72,7 @@ func Profile(name string, seed int64, tier string) HistOpts {
 		}
 		o.Weights = w
 		o.Gen = GenOpts{Candidates: 104, ValidatorN: 4, ExtraPK: 24}
+		o.Script = 0
 		o.CheckTx = false
 		o.Malformed = 2
 		o.TxPerBlk = 3
@@ -103,6 +110,10 @@ func Profile(name string, seed int64, tier string) HistOpts {
 		o.CustomGas = 50
 	case "rewardtime":
 		o.TimeMode = 1
+	case "pricecoin": // the price table is denominated in a custom coin (token 4, pool 4/BIP), gas prices up to 50
+		o.Gen = GenOpts{PriceCoin: 4}
+		o.GasPriceMax = 50
+		o.CustomGas = 40
 	}
 	if BlocksOverride > 0 {
 		o.Blocks = BlocksOverride
